@@ -263,7 +263,8 @@ def judge_bump(ctx, tree, pattern, state, text, flags, clock, delta, exp, exit_c
         if not int(nb) > int(ob):
             ctx.violation("C17", "build_not_greater_int", dict(base_facts, old=ob, new=nb),
                           "BUILD %r -> %r does not grow numerically" % (ob, nb))
-        if (generated or len(ob) >= 4) and "BUILD" in rp.parts_of(tree) and not nb > ob:
+        if (((generated or len(ob) >= 4) and "BUILD" in rp.parts_of(tree)) or
+                (generated and "BUILD" not in rp.parts_of(tree))) and not nb > ob:
             ctx.violation("C17", "build_not_greater_str", dict(base_facts, old=ob, new=nb),
                           "BUILD %r -> %r does not grow lexically" % (ob, nb))
         if int(ob) >= 1000 and len(nb) < len(ob):
